@@ -400,3 +400,18 @@ M("C03", "reset-offset-one", PROG, "        self.resolver.pc = 0x000000\n       
 M("C14", "success-returns-one", PROG, "        self.logger.info(\"Success !\")\n        return 0", "        self.logger.info(\"Success !\")\n        return 1", "C14.R2")
 M("C02", "incbin-advances-backwards", NODES, "retval = current_pc + len(self.binary_content)", "retval = current_pc - len(self.binary_content)", "C02.R1")
 M("C13", "trailer-read-two-bytes", NODES, "(record_header := ips_file.read(3))", "(record_header := ips_file.read(2))", "C13.R2")
+# ------------------------------------------------------------------ rules added after seeds round 5
+M("C03", "at-eq-builds-position-node", CG, "    return [RelocationAddressNode(ExpressionNode(node.expression, resolver, file_info), resolver)]", "    return [CodePositionNode(ExpressionNode(node.expression, resolver, file_info), resolver)]", "C03.R3")
+M("C04", "duplicate-mapping-key", SYM, 'low_rom_2_bus.map("2", (0x7E, 0x7F)', 'low_rom_2_bus.map("1", (0x7E, 0x7F)', "C04.R1")
+M("C06", "statement-shift-right-lost", SST, '    elif s.accept_prefix(">>"):\n        s.emit(TokenType.OPERATOR)\n    elif s.accept_prefix("<<"):', '    elif s.accept_prefix("<<"):\n        s.emit(TokenType.OPERATOR)\n    elif s.accept_prefix("<<"):', "C06.R5")
+M("C14", "invalid-expression-names-next-token", PST, 'raise ParserSyntaxError("Invalid expression", token=current_token)', 'raise ParserSyntaxError("Invalid expression", token=p.current())', "C14.R9")
+M("C17", "invalid-expression-names-next-token", PST, 'raise ParserSyntaxError("Invalid expression", token=current_token)', 'raise ParserSyntaxError("Invalid expression", token=p.peek())', "C17.R6")
+M("C14", "unclosed-paren-accepted", PST, "            expect_token(p.current(), TokenType.RPAREN)\n\n", "", "C14.R10")
+M("C17", "line-stored-twice", "a816/parse/tokens.py", "        self.lines.append(line)\n", "        self.lines.append(line)\n        self.lines.append(line)\n", "C17.R3")
+M("C18", "decode-advance-one", SCR, "                    if isinstance(decoded, tuple):\n                        current_position += i", "                    if isinstance(decoded, tuple):\n                        current_position += 1", "C18.R1")
+M("C18", "blanks-after-equals-dropped", SCR, r'\s*=(?P<text>[^\n]+)', r'=\s*(?P<text>[^\n]+)', "C18.R3")
+M("C16", "include-keyword-misspelt", SST, '    "include",\n', '    "inlcude",\n', "C16.R3")
+M("C09", "second-pass-left-at-first-label", PROG, "            if isinstance(node, LabelNode) or isinstance(node, BinaryNode):\n                continue", "            if isinstance(node, LabelNode) or isinstance(node, BinaryNode):\n                break", "C09.R11")
+M("C02", "second-pass-left-at-first-label", PROG, "            if isinstance(node, LabelNode) or isinstance(node, BinaryNode):\n                continue", "            if isinstance(node, LabelNode) or isinstance(node, BinaryNode):\n                break", "C02.R3")
+M("C09", "splice-closer-not-consumed", PST, "    expect_token(p.next(), TokenType.DOUBLE_RBRACE)", "    expect_token(p.current(), TokenType.DOUBLE_RBRACE)", "C09.R10")
+M("C09", "double-rbrace-lexed-as-lbrace", SST, "            s.emit(TokenType.DOUBLE_RBRACE)", "            s.emit(TokenType.DOUBLE_LBRACE)", "C09.R10")
